@@ -11,24 +11,36 @@ package coordinator
 // running loads: what the shard reported in this cycle plus everything placed on it so far (C04)
 ghost field shardInfo.gHead int
 ghost field shardInfo.gProc int
-// ownership back-pointers (make distinct shards have distinct runtime objects and scraping maps)
+// shardInfo objects built by getOneShardInfo in this cycle
+ghost field shardInfo.gLive bool
+// the hashes the shard reported scraping (key set of the status report) (C01)
+ghost field shardInfo.gReported set[uint64]
+// ownership back-pointers (make distinct shardInfos have distinct runtime objects, scraping maps and shards)
 ghost field shard.RuntimeInfo.gOwner ref
 ghost global gScrOwner seq[int]
+// hashes currently discovered (key set of what getActive returned in this cycle)
+ghost global gActive set[uint64]
+// the configuration the coordinator currently runs (what getConfig returns)
+ghost field Coordinator.gCfg ref[prom.ConfigInfo]
 
 // ---------- well-formedness: what getOneShardInfo and a real sidecar establish ----------
 pred wfOpt(c) = c != nil && c.option != nil && c.option.MaxProcessSeries > 0 && c.option.MaxHeadSeries >= 0
 
-pred wfStatus(st) = st != nil && st.Series >= 0 && st.TotalSeries >= 0
+// a coordinator as NewCoordinator builds it
+pred wfCoord(c) = wfOpt(c) && c.getConfig != nil && c.getActive != nil && c.getExploreResult != nil && c.reManager != nil && c.gCfg != nil
 
-pred wfShard(s) = s != nil && s.runtime != nil && s.shard != nil
+pred wfShard(s) = s.runtime != nil && s.shard != nil
     && (s.changeAble ==> s.scraping != nil)
-    && s.runtime.HeadSeries >= 0 && s.runtime.ProcessSeries >= 0
+    && (s.changeAble ==> s.runtime.HeadSeries >= 0 && s.runtime.ProcessSeries >= 0)
     && (forall h, st in s.scraping :: wfStatus(st))
     && s.gHead == s.runtime.HeadSeries && s.gProc == s.runtime.ProcessSeries
     && s.runtime.gOwner == s
     && (s.scraping != nil ==> gScrOwner[s.scraping] == s)
+    && s.shard.gInfo == s
 
-pred wfShards(shards) = forall s in shards :: wfShard(s)
+// data-structure invariant over every shardInfo of the cycle
+pred wfAll() = forall o : *shardInfo :: (o.gLive && allocated(o)) ==> (o != nil && wfShard(o))
+pred live(shards) = forall s in shards :: s != nil && s.gLive
 
 pred fitsShard(c, s, head, proc) =
     (c.option.MaxHeadSeries == 0 || s.runtime.HeadSeries + head < c.option.MaxHeadSeries)
@@ -41,6 +53,10 @@ on insert shardInfo.scraping(s, k, v)
    assert[C04] @head_limit  c.option.MaxHeadSeries == 0 || s.gHead < c.option.MaxHeadSeries
    assert[C04] @process_limit  s.gProc < c.option.MaxProcessSeries
    assert[C08] @destination_in_sync  s.changeAble
+
+// a map of the planned-set type that is written without going through a shardInfo must not be a planned set
+on insert_unowned shardInfo.scraping(m, k, v)
+   assert[C04,C08] @not_a_planned_set gScrOwner[m] == nil
 
 // "When a target is moved between shards, the same cycle marks it in-transfer on the source and assigns it in
 // normal state to the destination" (C05): checked at the insert transferTarget performs, wherever it is inlined.
@@ -65,11 +81,11 @@ contract space.isZero
   modifies nothing
 
 contract shardInfo.totalTargetsHeadSeries
-  requires wfShard(s)
+  requires s != nil && (forall h, st in s.scraping :: st != nil)
   modifies nothing
 
 contract shardInfo.totalTargetsTotalSeries
-  requires wfShard(s)
+  requires s != nil && (forall h, st in s.scraping :: st != nil)
   modifies nothing
 
 pred goodChoice(c, shards, sp, ch) = isptr(ch.Item, shardInfo) && asptr(ch.Item, shardInfo) in shards
@@ -78,7 +94,7 @@ pred goodChoice(c, shards, sp, ch) = isptr(ch.Item, shardInfo) && asptr(ch.Item,
     && ch.Weight >= 1
 
 contract Coordinator.getFreeShard
-  requires wfOpt(c) && wfShards(shards) && sp.headSpace >= 0 && sp.processSpace >= 0
+  requires wfOpt(c) && wfAll() && live(shards) && sp.headSpace >= 0 && sp.processSpace >= 0
   ensures[C04,C08] @free_shard_fits result != nil ==> result in shards && result.changeAble && fitsShard(c, result, sp.headSpace, sp.processSpace)
   modifies nothing
   loop 1 invariant fresh(cs)
@@ -100,58 +116,55 @@ contract changeAbleShardsInfo
 pred allChangeAble(shards) = forall s in shards :: s.changeAble
 
 // the planning steps only add to planned sets (C01: nothing is taken away after gcTargets)
-pred monotone(shards) = forall s in shards :: forall h in old(keys(s.scraping)) :: h in s.scraping
+pred monotoneAll() = forall o : *shardInfo :: (old(o.gLive) && old(allocated(o))) ==> (forall h in old(keys(o.scraping)) :: h in o.scraping)
 
-// shards outside the slice handed to a step are left alone: same planned set, same loads
-pred owned(o) = o.runtime != nil && o.runtime.gOwner == o && (o.scraping != nil ==> gScrOwner[o.scraping] == o)
-pred untouched(o) = o.gHead == old(o.gHead) && o.gProc == old(o.gProc) && samemap(o.scraping)
-    && o.runtime.HeadSeries == old(o.runtime.HeadSeries) && o.runtime.ProcessSeries == old(o.runtime.ProcessSeries)
-pred othersKeepKeys(shards) = forall o : *shardInfo :: (old(owned(o)) && !(o in shards)) ==> untouched(o)
+// in-sync shards only plan discovered targets (crash-freedom of the status bookkeeping at the end of the cycle, C01)
+pred plannedActive() = forall o : *shardInfo :: (o.gLive && allocated(o) && o.changeAble) ==> (forall h in o.scraping :: h in gActive)
+
+// shards outside the slice handed to a step keep their planned set (their map is not written)
+pred othersKeepMap(shards) = forall o : *shardInfo :: (old(o.gLive) && old(allocated(o)) && !(o in shards)) ==> samemap(o.scraping)
 
 contract Coordinator.alleviateShardHeadSeries
-  requires wfOpt(c) && wfShards(changeAbleShards) && allChangeAble(changeAbleShards) && s in changeAbleShards
-  ensures wfShards(changeAbleShards)
-  ensures[C01] monotone(changeAbleShards)
-  ensures othersKeepKeys(changeAbleShards)
+  requires wfOpt(c) && wfAll() && plannedActive() && live(changeAbleShards) && allChangeAble(changeAbleShards) && s in changeAbleShards
+  ensures wfAll() && plannedActive()
+  ensures[C01] monotoneAll()
   modifies shard.RuntimeInfo.HeadSeries, shard.RuntimeInfo.ProcessSeries, target.ScrapeStatus.TargetState, target.ScrapeStatus.* at {},
            mapof(shardInfo.scraping), shardInfo.gHead, shardInfo.gProc
-  loop 1 invariant wfShards(changeAbleShards)
-  loop 1 invariant[C01] monotone(changeAbleShards)
-  loop 1 invariant othersKeepKeys(changeAbleShards)
-  loop 2 invariant wfShards(changeAbleShards)
-  loop 2 invariant[C01] monotone(changeAbleShards)
-  loop 2 invariant othersKeepKeys(changeAbleShards)
+  loop 1 invariant wfAll()
+  loop 1 invariant plannedActive()
+  loop 1 invariant[C01] monotoneAll()
+  loop 2 invariant wfAll()
+  loop 2 invariant plannedActive()
+  loop 2 invariant[C01] monotoneAll()
 
 contract Coordinator.alleviateShardProcessSeries
-  requires wfOpt(c) && wfShards(changeAbleShards) && allChangeAble(changeAbleShards) && s in changeAbleShards
-  ensures wfShards(changeAbleShards)
-  ensures[C01] monotone(changeAbleShards)
-  ensures othersKeepKeys(changeAbleShards)
+  requires wfOpt(c) && wfAll() && plannedActive() && live(changeAbleShards) && allChangeAble(changeAbleShards) && s in changeAbleShards
+  ensures wfAll() && plannedActive()
+  ensures[C01] monotoneAll()
   modifies shard.RuntimeInfo.HeadSeries, shard.RuntimeInfo.ProcessSeries, target.ScrapeStatus.TargetState, target.ScrapeStatus.* at {},
            mapof(shardInfo.scraping), shardInfo.gHead, shardInfo.gProc
-  loop 1 invariant wfShards(changeAbleShards)
-  loop 1 invariant[C01] monotone(changeAbleShards)
-  loop 1 invariant othersKeepKeys(changeAbleShards)
-  loop 2 invariant wfShards(changeAbleShards)
-  loop 2 invariant[C01] monotone(changeAbleShards)
-  loop 2 invariant othersKeepKeys(changeAbleShards)
+  loop 1 invariant wfAll()
+  loop 1 invariant plannedActive()
+  loop 1 invariant[C01] monotoneAll()
+  loop 2 invariant wfAll()
+  loop 2 invariant plannedActive()
+  loop 2 invariant[C01] monotoneAll()
 
 contract Coordinator.alleviateShards
-  requires wfOpt(c) && wfShards(changeAbleShards) && allChangeAble(changeAbleShards)
-  ensures wfShards(changeAbleShards)
-  ensures[C01] monotone(changeAbleShards)
-  ensures othersKeepKeys(changeAbleShards)
+  requires wfOpt(c) && wfAll() && plannedActive() && live(changeAbleShards) && allChangeAble(changeAbleShards)
+  ensures wfAll() && plannedActive()
+  ensures[C01] monotoneAll()
   modifies shard.RuntimeInfo.HeadSeries, shard.RuntimeInfo.ProcessSeries, target.ScrapeStatus.TargetState, target.ScrapeStatus.* at {},
            mapof(shardInfo.scraping), shardInfo.gHead, shardInfo.gProc
-  loop 1 invariant wfShards(changeAbleShards)
-  loop 1 invariant[C01] monotone(changeAbleShards)
-  loop 1 invariant othersKeepKeys(changeAbleShards)
-  loop 2 invariant wfShards(changeAbleShards)
-  loop 2 invariant[C01] monotone(changeAbleShards)
-  loop 2 invariant othersKeepKeys(changeAbleShards)
-  loop 3 invariant wfShards(changeAbleShards)
-  loop 3 invariant[C01] monotone(changeAbleShards)
-  loop 3 invariant othersKeepKeys(changeAbleShards)
+  loop 1 invariant wfAll()
+  loop 1 invariant plannedActive()
+  loop 1 invariant[C01] monotoneAll()
+  loop 2 invariant wfAll()
+  loop 2 invariant plannedActive()
+  loop 2 invariant[C01] monotoneAll()
+  loop 3 invariant wfAll()
+  loop 3 invariant plannedActive()
+  loop 3 invariant[C01] monotoneAll()
 
 pred wfActive(active) = forall h, t in active :: t != nil && t.ShardTarget != nil
 
@@ -168,11 +181,11 @@ on insert shardInfo.scraping(s, k, v) in Coordinator.assignNoScrapingTargets
    assert[C08] @not_assigned_twice forall t in shards :: !(k in old(keys(t.scraping)))
 
 contract Coordinator.assignNoScrapingTargets
-  requires wfOpt(c) && wfShards(shards) && wfActive(active) && wfGlobal(globalScrapeStatus)
-  requires forall s in shards :: s.scraping != globalScrapeStatus
-  ensures wfShards(shards)
-  ensures[C01] monotone(shards)
-  ensures othersKeepKeys(shards)
+  requires wfOpt(c) && wfAll() && live(shards) && wfActive(active) && wfGlobal(globalScrapeStatus)
+  requires gScrOwner[globalScrapeStatus] == nil && plannedActive() && gActive == keys(active)
+  ensures wfAll() && plannedActive()
+  ensures[C01] monotoneAll()
+  ensures result.headSpace >= 0 && result.processSpace >= 0
   modifies shard.RuntimeInfo.HeadSeries, shard.RuntimeInfo.ProcessSeries,
            mapof(shardInfo.scraping), shardInfo.gHead, shardInfo.gProc
   loop 1 invariant forall j in 0..idx1 :: forall h in shards[j].scraping :: scraping[h]
@@ -180,9 +193,9 @@ contract Coordinator.assignNoScrapingTargets
   loop 2 invariant forall j in 0..idx1 :: forall h in shards[j].scraping :: scraping[h]
   loop 2 invariant forall h in visited2 :: scraping[h]
   loop 2 invariant fresh(scraping)
-  loop 3 invariant wfShards(shards) && wfGlobal(globalScrapeStatus)
-  loop 3 invariant[C01] monotone(shards)
-  loop 3 invariant othersKeepKeys(shards)
+  loop 3 invariant wfAll() && wfGlobal(globalScrapeStatus) && plannedActive()
+  loop 3 invariant[C01] monotoneAll()
+  loop 3 invariant needSp.headSpace >= 0 && needSp.processSpace >= 0
 
 contract Coordinator.tryScaleUp
   requires wfOpt(c) && (forall s in shard :: s != nil)
@@ -199,29 +212,31 @@ pred removable(c, s) = s.changeAble && s.runtime.IdleStartAt != nil && len(s.scr
     && gClock - deref(s.runtime.IdleStartAt) > c.option.MaxIdleTime
 
 contract Coordinator.shardCanBeIdle
-  requires wfOpt(c) && wfShards(shards) && wfShard(src)
+  requires wfOpt(c) && wfAll() && live(shards) && src != nil && src.gLive
+  ensures result ==> src.changeAble
   modifies nothing
   loop 1 invariant fresh(availableSpaces)
   loop 2 invariant fresh(availableSpaces)
   loop 3 invariant fresh(availableSpaces)
 
 contract Coordinator.shardBecomeIdle
-  requires wfOpt(c) && wfShards(shards) && wfShard(src)
-  ensures wfShards(shards) && wfShard(src)
-  ensures[C01] monotone(shards) && (forall h in old(keys(src.scraping)) :: h in src.scraping)
-  ensures othersKeepKeys(shards)
+  requires wfOpt(c) && wfAll() && plannedActive() && live(shards) && src != nil && src.gLive && src.changeAble
+  ensures wfAll() && plannedActive()
+  ensures[C01] monotoneAll()
+  ensures othersKeepMap(shards)
   modifies shard.RuntimeInfo.HeadSeries, shard.RuntimeInfo.ProcessSeries, target.ScrapeStatus.TargetState, target.ScrapeStatus.* at {},
            mapof(shardInfo.scraping), shardInfo.gHead, shardInfo.gProc
-  loop 1 invariant wfShards(shards) && wfShard(src)
-  loop 1 invariant[C01] monotone(shards) && (forall h in old(keys(src.scraping)) :: h in src.scraping)
-  loop 1 invariant othersKeepKeys(shards)
+  loop 1 invariant wfAll()
+  loop 1 invariant plannedActive()
+  loop 1 invariant[C01] monotoneAll()
+  loop 1 invariant othersKeepMap(shards)
 
 contract Coordinator.tryScaleDown
-  requires wfOpt(c) && wfShards(shards) && distinctShards(shards)
+  requires wfOpt(c) && wfAll() && plannedActive() && live(shards) && distinctShards(shards)
   ensures[C07] @scale_in_range 0 <= result && result <= len(shards)
   ensures[C07] @only_removable_shards_dropped forall j in result..len(shards) :: removable(c, shards[j])
-  ensures wfShards(shards)
-  ensures[C01] monotone(shards)
+  ensures wfAll() && plannedActive()
+  ensures[C01] monotoneAll()
   ensures gClock >= old(gClock)
   modifies shard.RuntimeInfo.HeadSeries, shard.RuntimeInfo.ProcessSeries, target.ScrapeStatus.TargetState, target.ScrapeStatus.* at {},
            mapof(shardInfo.scraping), shardInfo.gHead, shardInfo.gProc, gClock
@@ -229,8 +244,9 @@ contract Coordinator.tryScaleDown
   loop 1 invariant[C07] @tail_removable forall j in scale..len(shards) :: removable(c, shards[j])
   loop 2 invariant 0 - 1 <= i && i < scale && scale <= len(shards) && 0 <= scale && gClock >= old(gClock)
   loop 2 invariant[C07] @tail_removable forall j in scale..len(shards) :: removable(c, shards[j])
-  loop 2 invariant wfShards(shards)
-  loop 2 invariant[C01] monotone(shards)
+  loop 2 invariant wfAll()
+  loop 2 invariant plannedActive()
+  loop 2 invariant[C01] monotoneAll()
 
 // ---------- garbage collection of planned sets (C01, C05) ----------
 // "A target is taken away from a shard only when it is no longer discovered or when another such shard also
@@ -238,31 +254,138 @@ contract Coordinator.tryScaleDown
 // the source itself has scraped it at least three times" (C05; the literal 3 is the README's hand-over rule).
 // Deletes anywhere else cannot resolve these names and are reported.
 on delete shardInfo.scraping(s, k)
-   assert[C01] @delete_justified !(k in active) || (exists o in changeAbleShards :: o != s && o.changeAble && k in o.scraping)
+   assert[C01] @delete_justified !(k in active) || (exists o in changeAbleShards :: o != s && o.changeAble && k in o.scraping && k in o.gReported)
    assert[C05] @handover_rule (k in active && s.scraping[k].TargetState == "in_transfer") ==>
         (s.scraping[k].ScrapeTimes >= 3 && (exists o in changeAbleShards :: o != s && k in o.scraping && o.scraping[k].ScrapeTimes >= 3))
 
+// every discovered hash some in-sync shard reported is still planned on an in-sync shard that reported it
 pred covered(changeAbleShards, active) = forall h in active ::
-    (exists s in changeAbleShards :: h in old(keys(s.scraping))) ==> (exists s in changeAbleShards :: h in s.scraping)
+    (exists s in changeAbleShards :: h in s.gReported) ==> (exists s in changeAbleShards :: h in s.scraping && h in s.gReported)
 pred onlyRemoves(changeAbleShards) = forall s in changeAbleShards :: forall h in s.scraping :: h in old(keys(s.scraping))
+pred reportedIsPlanned(shards) = forall s in shards :: s.changeAble ==> keys(s.scraping) == s.gReported
 
 contract Coordinator.gcTargets
-  requires wfOpt(c) && wfShards(changeAbleShards) && allChangeAble(changeAbleShards)
+  requires wfOpt(c) && wfAll() && live(changeAbleShards) && allChangeAble(changeAbleShards) && reportedIsPlanned(changeAbleShards)
   ensures[C01] @coverage covered(changeAbleShards, active)
   ensures[C01] @only_removes onlyRemoves(changeAbleShards)
-  ensures wfShards(changeAbleShards)
-  ensures othersKeepKeys(changeAbleShards)
+  ensures wfAll()
+  ensures othersKeepMap(changeAbleShards)
+  ensures[C01] @only_discovered_stay forall s in changeAbleShards :: forall h in s.scraping :: h in active
   modifies mapof(shardInfo.scraping)
   loop 1 invariant[C01] @coverage covered(changeAbleShards, active)
   loop 1 invariant[C01] @only_removes onlyRemoves(changeAbleShards)
-  loop 1 invariant wfShards(changeAbleShards)
-  loop 1 invariant othersKeepKeys(changeAbleShards)
+  loop 1 invariant wfAll()
+  loop 1 invariant othersKeepMap(changeAbleShards)
+  loop 1 invariant[C01] @only_discovered_stay forall j in 0..idx1 :: forall h in changeAbleShards[j].scraping :: h in active
   loop 2 invariant[C01] @coverage covered(changeAbleShards, active)
   loop 2 invariant[C01] @only_removes onlyRemoves(changeAbleShards)
-  loop 2 invariant wfShards(changeAbleShards)
-  loop 2 invariant othersKeepKeys(changeAbleShards)
+  loop 2 invariant wfAll()
+  loop 2 invariant othersKeepMap(changeAbleShards)
+  loop 2 invariant[C01] @only_discovered_stay forall j in 0..idx1 :: forall h in changeAbleShards[j].scraping :: h in active
+  loop 2 invariant[C01] @only_discovered_stay_cur forall h in visited2 :: (h in s.scraping ==> h in active)
+  loop 2 invariant forall k in s.scraping :: k in range2
   loop 3 invariant[C01] @coverage covered(changeAbleShards, active)
   loop 3 invariant[C01] @only_removes onlyRemoves(changeAbleShards)
-  loop 3 invariant wfShards(changeAbleShards)
-  loop 3 invariant othersKeepKeys(changeAbleShards)
+  loop 3 invariant wfAll()
+  loop 3 invariant othersKeepMap(changeAbleShards)
+
+// ---------- collecting the reports (C08) ----------
+contract field Coordinator.getConfig()
+  ensures result != nil && result == self.gCfg
+  modifies nothing
+
+contract field Coordinator.getExploreResult(hash)
+  ensures result != nil ==> wfStatus(result)
+  modifies nothing
+
+contract field Coordinator.getActive()
+  ensures wfActive(result)
+  modifies nothing
+
+contract Coordinator.getOneShardInfo
+  requires wfCoord(c) && s != nil && wfAll() && s.gInfo == nil
+  ensures result != nil && fresh(result) && result.gLive && result.shard == s
+  ensures wfAll()
+  ensures[C01] result.changeAble ==> keys(result.scraping) == result.gReported && result.gReported == s.gList
+  ensures[C08] @unready_shard_gets_no_request !s.Ready ==> !result.changeAble && sameRequests(s)
+  ensures[C08] @no_target_or_extra_config_update s.gPostTargets == old(s.gPostTargets) && s.gPostExtra == old(s.gPostExtra)
+  ensures[C08] @in_sync_only_with_matching_hash result.changeAble ==> s.Ready && result.runtime.ConfigHash == c.gCfg.ConfigHash
+  ensures[C08] @config_pushed_at_most_once s.gPostCfg >= old(s.gPostCfg) && s.gPostCfg <= old(s.gPostCfg) + 1
+  ensures s.gList == old(s.gList)
+  modifies shardInfo.* at {}, shard.RuntimeInfo.* at {}, target.ScrapeStatus.* at {}, mapof(shardInfo.scraping) at {}, mapof(shardInfo.newTargets) at {},
+           shard.Shard.scraping at {s}, shard.Shard.gGets at {s}, shard.Shard.gPostCfg at {s}, shard.Shard.gInfo at {s}, shard.UpdateConfigRequest.* at {}, gScrOwner
+  atreturn do result.gLive = true
+           do result.gHead = result.runtime.HeadSeries
+           do result.gProc = result.runtime.ProcessSeries
+           do result.runtime.gOwner = result
+           do gScrOwner = seqset(gScrOwner, result.scraping, result)
+           do result.gReported = keys(result.scraping)
+           do s.gInfo = result
+
+pred freshShards(shards) = (forall s in shards :: s != nil && s.gInfo == nil) && (forall a in 0..len(shards) :: forall b in 0..len(shards) :: a != b ==> shards[a] != shards[b])
+
+contract Coordinator.getShardInfos
+  requires wfCoord(c) && wfAll() && freshShards(shards)
+  ensures len(result) == len(shards) && fresh(result) && live(result) && distinctShards(result)
+  ensures wfAll()
+  ensures forall j in 0..len(shards) :: result[j].shard == shards[j]
+  ensures[C01] reportedIsPlanned(result)
+  ensures[C08] @unready_shard_gets_no_request forall j in 0..len(shards) :: !shards[j].Ready ==> !result[j].changeAble && sameRequests(shards[j])
+  ensures[C08] @no_target_or_extra_config_update forall j in 0..len(shards) :: shards[j].gPostTargets == old(shards[j].gPostTargets) && shards[j].gPostExtra == old(shards[j].gPostExtra)
+  ensures[C08] @in_sync_only_with_matching_hash forall j in 0..len(shards) :: result[j].changeAble ==> shards[j].Ready && result[j].runtime.ConfigHash == c.gCfg.ConfigHash
+  modifies shardInfo.* at {}, shard.RuntimeInfo.* at {}, target.ScrapeStatus.* at {}, mapof(shardInfo.scraping) at {}, mapof(shardInfo.newTargets) at {},
+           shard.Shard.scraping, shard.Shard.gGets, shard.Shard.gPostCfg, shard.Shard.gInfo, shard.UpdateConfigRequest.* at {}, gScrOwner
+  loop 1 invariant wfAll()
+  loop 1 invariant len(all) == len(shards) && fresh(all)
+  loop 1 invariant forall j in 0..idx1 :: all[j] != nil && all[j].gLive && allocated(all[j]) && all[j].shard == shards[j]
+  loop 1 invariant forall a in 0..idx1 :: forall b in 0..idx1 :: a != b ==> all[a] != all[b]
+  loop 1 invariant forall j in idx1..len(shards) :: shards[j].gInfo == nil
+  loop 1 invariant[C01] forall j in 0..idx1 :: all[j].changeAble ==> keys(all[j].scraping) == all[j].gReported
+  loop 1 invariant[C08] @unready_shard_gets_no_request forall j in 0..idx1 :: !shards[j].Ready ==> !all[j].changeAble && sameRequests(shards[j])
+  loop 1 invariant[C08] @untouched_so_far forall j in idx1..len(shards) :: sameRequests(shards[j])
+  loop 1 invariant[C08] @no_target_or_extra_config_update forall j in 0..len(shards) :: shards[j].gPostTargets == old(shards[j].gPostTargets) && shards[j].gPostExtra == old(shards[j].gPostExtra)
+  loop 1 invariant[C08] @in_sync_only_with_matching_hash forall j in 0..idx1 :: all[j].changeAble ==> shards[j].Ready && all[j].runtime.ConfigHash == c.gCfg.ConfigHash
+
+// ---------- sending the plan (C08) ----------
+contract updateScrapingTargets
+  requires wfAll() && live(shards) && wfActive(active)
+  modifies shardInfo.newTargets, mapof(shardInfo.newTargets), elems(shardInfo.newTargets) at {}, target.Target.* at {}
+
+pred untouchedRequests(shards) = forall j in 0..len(shards) :: !shards[j].changeAble ==> sameRequests(shards[j].shard)
+
+contract Coordinator.applyShardsInfo
+  requires wfCoord(c) && wfAll() && live(shards)
+  ensures[C08] @no_update_for_unready_or_out_of_sync untouchedRequests(shards)
+  modifies shard.Shard.gPostTargets, shard.Shard.gPostExtra, shard.Shard.gList, shard.UpdateTargetsRequest.* at {}
+  loop 1 invariant[C08] @no_update_for_unready_or_out_of_sync untouchedRequests(shards)
+
+// ---------- status bookkeeping ----------
+pred allEntriesWf(g) = forall h, st in g :: wfStatus(st)
+
+contract Coordinator.globalScrapeStatus
+  requires wfCoord(c) && wfAll() && live(shards)
+  ensures result != nil && fresh(result) && allEntriesWf(result)
+  ensures forall h in active :: h in result
+  modifies target.ScrapeStatus.* at {}, tkestack.io/kvass/pkg/scrape.StatisticsSeriesResult.* at {}, mapof(shardInfo.scraping) at {}, mapof(tkestack.io/kvass/pkg/scrape.StatisticsSeriesResult.MetricsTotal) at {}
+  loop 1 invariant ret != nil && fresh(ret) && allEntriesWf(ret)
+  loop 1 invariant forall h in visited1 :: h in ret
+  loop 2 invariant ret != nil && fresh(ret) && allEntriesWf(ret)
+  loop 2 invariant forall k in visited1 :: (k != h ==> k in ret)
+
+contract Coordinator.updateScrapeStatusShards
+  requires c != nil && wfAll() && live(shards) && status != nil && allEntriesWf(status)
+  requires forall s in shards :: s.changeAble ==> (forall k in s.scraping :: k in status)
+  ensures result == status && allEntriesWf(status) && keys(status) == old(keys(status))
+  modifies target.ScrapeStatus.Shards
+  loop 1 invariant allEntriesWf(status) && keys(status) == old(keys(status))
+  loop 2 invariant allEntriesWf(status) && keys(status) == old(keys(status))
+  loop 3 invariant allEntriesWf(status) && keys(status) == old(keys(status))
+
+pred allEntriesNonNil(g) = forall h, st in g :: st != nil
+
+contract mergeScrapeStatus
+  requires a != nil && gScrOwner[a] == nil && allEntriesNonNil(a) && allEntriesNonNil(b)
+  ensures result == a && allEntriesNonNil(a)
+  modifies target.ScrapeStatus.*, mapof(shardInfo.scraping) at {a}
+  loop 1 invariant allEntriesNonNil(a) && allEntriesNonNil(b)
 @*/
